@@ -541,11 +541,25 @@ def r6_inferred(chk, repo, L):
             raise AnalysisError(f"{where}: the advertised dtype is {dt!r:.80}: not a table lookup keyed by a field; not decided")
         chk.ok("C01-R6", where, "advertised dtype is a table entry selected by the header's type code")
         br = am.items.get("byte_ranges")
-        if not (isinstance(br, ListOf) and isinstance(br.elem, (TupS, ListLit)) and len(br.elem.elts) == 2):
-            raise AnalysisError(f"{where}: byte_ranges is {br!r:.80}; not decided")
-        ends = [leaf_path(x) for x in br.elem.elts]
-        if None in ends and not all(isinstance(x, Leaf) for x in br.elem.elts):
-            raise AnalysisError(f"{where}: byte range ends are {br.elem!r:.80}; not decided")
+        symbolic = isinstance(br, ListOf) and isinstance(br.elem, (TupS, ListLit)) and len(br.elem.elts) == 2
+        ends = [leaf_path(x) for x in br.elem.elts] if symbolic else [None]
+        if not symbolic or (None in ends and not all(isinstance(x, Leaf) for x in br.elem.elts)):
+            # computed from the records and the header (clipped, shifted, re-aligned ...): evaluated on model descriptors of both
+            # product kinds with consistent sample-size fields - the ranges must be the records' own sample areas
+            from .common_rules import MODEL_PRODUCTS, array_metadata_on_model
+            decided = 0
+            for code in MODEL_PRODUCTS:
+                res = array_metadata_on_model(repo, L, code)
+                if res is None or res["byte_ranges"] is None:
+                    continue
+                decided += 1
+                got = [tuple(x) for x in res["byte_ranges"]]
+                chk.require(got == res["want_ranges"], "C01-R6", where, f"byte ranges of a {code} image are the records' own sample areas (model evaluation)",
+                            f"for a {code} image of {res['want_shape'][1]} pixels per line the sample area of the first line record is {res['want_ranges'][0]} but the array is given {got[0] if got else None}: "
+                            f"pixels are decoded from other bytes than the line's samples", key=f"byte_ranges:{code}")
+            if decided < len(MODEL_PRODUCTS):
+                raise AnalysisError(f"{where}: byte_ranges is {br!r:.80}; not decided")
+            continue
         chk.require(ends == ["data.start", "data.stop"] and br.n == n_lines and not getattr(br, "tags", None), "C01-R6", where, f"byte_ranges = [(m['data']['start'], m['data']['stop']) for every record, in order] ({rec_name})",
                     f"byte ranges are {br!r:.100}: not (data.start, data.stop) of every parsed record in order", key="byte_ranges")
 
